@@ -811,6 +811,41 @@ def run_dirorder_case(ctx: Ctx, case, verbose=False):
         shutil.rmtree(root, ignore_errors=True)
 
 
+def run_api_twice_case(ctx: Ctx, case, verbose=False):
+    """the documented in-memory API (`-i api://<name>`, in_data=<bytes>): the SAME buffer analysed twice in one
+    process (notebooks, the TensorBoard plugin re-render a trace) must give the same result both times"""
+    import aiu_trace_analyzer.logger as aiulog
+    from aiu_trace_analyzer.core.acelyzer import Acelyzer
+    from gen import scenario
+    files = scenario.scenario_events(R=1, groups=0, kernels=case["kernels"], seed=case["seed"])
+    evs = list(files.values())[0]
+    if case.get("torch"):
+        data = json.dumps(torch_trace(n=case["kernels"] + 2, seed=case["seed"])).encode()
+    else:
+        data = json.dumps(evs if case.get("list_form") else {"traceEvents": evs}).encode()
+    d = tempfile.mkdtemp(prefix="aiuverif_")
+    saved = sys.argv
+    sys.argv = ["acelyzer"]
+    snaps = []
+    try:
+        for k in range(2):
+            try:
+                with contextlib.redirect_stdout(io.StringIO()):
+                    ace = Acelyzer(["-i", "api://buf", "-o", os.path.join(d, f"o{k}x.json"), "-D", "0", "--freq", "512:512",
+                                    *real_opts(case["opts"])], in_data=data)
+                    aiulog.loglevel = -1
+                    rc = ace.run()
+            except Exception as e:  # noqa: BLE001
+                return ("api-twice", True, f"run {k + 1} on the same buffer raised {type(e).__name__}: {str(e)[:120]}", "")
+            if rc != 0:
+                return ("api-twice", True, f"run {k + 1} returned {rc}", "")
+            snaps.append(snapshot(d, f"o{k}x"))
+        return ("api-twice", True, diff_snap(snaps[0], snaps[1]), "")
+    finally:
+        sys.argv = saved
+        shutil.rmtree(d, ignore_errors=True)
+
+
 def gen_e2e_cases(ctx: Ctx):
     rng = ctx.rng
     optsets = [[], ["--flow"], ["--tb"], ["-P", "everything", "--flow"], ["--comm_summarize_seq"], ["--keep_prep", "-C", "power_ts4", "prep_queue"],
@@ -848,6 +883,9 @@ def gen_e2e_cases(ctx: Ctx):
     for k in range(ctx.n(2, 6)):
         yield {"kind": "e2e", "scen": {"twin": 2 + k % 3, "seed": rng.randint(0, 10 ** 6)}, "opts": [], "seed": rng.randint(0, 10 ** 6),
                "variants": ["seed:1", "seed:2", "seed:3", "seed:4", "seed:7", f"seed:{rng.randint(8, 10 ** 6)}", "inproc", "after:A"]}
+    for k in range(ctx.n(3, 10)):
+        yield {"kind": "api-twice", "kernels": rng.randint(1, 3), "seed": rng.randint(0, 10 ** 6), "opts": [[], ["--keep_prep"], ["-t"]][k % 3],
+               "list_form": k % 2 == 0, "torch": k % 3 == 2}
     for k in range(ctx.n(1, 4)):
         yield {"kind": "dirorder", "scen": {"R": rng.choice([3, 4]), "groups": 1, "kernels": rng.randint(1, 2), "seed": rng.randint(0, 10 ** 6)},
                "opts": rng.choice([[], ["--flow"]])}
@@ -874,6 +912,13 @@ def oracle_on_case(ctx: Ctx, case, verbose=False, pool=None):
     if own_pool:
         pool = concurrent.futures.ThreadPoolExecutor(max_workers=8)
     try:
+        if case["kind"] == "api-twice":
+            r = run_api_twice_case(ctx, case, verbose)
+            if verbose:
+                print("  api-twice:", r[2] or "identical")
+            if r[2]:
+                ctx.violation("api-buffer-reuse", f"the same api:// buffer analysed twice in one process: {r[2]}", case)
+            return {"results": [r]}
         if case["kind"] == "dirorder":
             r = run_dirorder_case(ctx, case, verbose)
             if r is None:
@@ -917,7 +962,8 @@ def run(ctx: Ctx):
         for case in gen_e2e_cases(ctx):
             o = oracle_on_case(ctx, case, pool=pool)
             for v, nt, diff, note in o["results"]:
-                ctx.case_done(dict(case, variants=[v]), key=json.dumps([case["scen"], case["opts"], v], sort_keys=True), nontrivial=nt)
+                ctx.case_done(dict(case, variants=[v]), key=json.dumps([case.get("scen", {k2: case[k2] for k2 in case if k2 not in ("opts", "variants")}), case["opts"], v],
+                                              sort_keys=True), nontrivial=nt)
                 ctx.count("e2e_variant_" + (v.partition("=")[0] if "=" in v else v.partition(":")[0]), 1)
     if ctx.search_mode or not ctx.driver or not ctx.driver.ok:
         return
